@@ -18,8 +18,12 @@ Theorem C19_sigs_ok :
 Proof. exact sigs_lifted. Qed.
 Print Assumptions C19_sigs_ok.
 
-(** The source of [ZstCache::alloc_zst] is a single [if size_of::<T>() == 0 && align_of::<T>() <=
-    MAX_ALIGN { Some(..) } else { None }], and each anchor type registered for [Alignment<N>] is
+(** The body of [ZstCache::alloc_zst], read as a decision tree over its (pure) conditions, returns
+    [Some(..)] exactly when [size_of::<T>() == 0 && align_of::<T>() <= MAX_ALIGN] -- decided on the
+    MEANING of the conditions ([ModelSigs.zbody_canonical]: the propositional reading of the tree agrees
+    with that conjunction on all four valuations), not on their spelling: an early [return None], a
+    De Morgan-negated or nested guard, flipped comparisons, [let]-bound sub-expressions and reordered
+    conjuncts are the same condition --, and each anchor type registered for [Alignment<N>] is
     [#[repr(align(N))]]. *)
 Theorem C19_zst_shape : zst_shape = true.
 Proof. exact zst_shape_check. Qed.
@@ -30,7 +34,7 @@ Print Assumptions C19_zst_shape.
 Theorem C19_zst_cond :
   forall anchor size align maxa k j p,
     align = (2 ^ k)%N -> maxa = (2 ^ j)%N -> (anchor mod maxa = 0)%N ->
-    alloc_zst_model zst_cond anchor size align maxa = Some p ->
+    alloc_zst_model zst_body anchor size align maxa = Some p ->
     size = 0%N /\ (align <= maxa)%N /\ p = anchor /\ (p mod align = 0)%N.
 Proof. exact zst_sound_generated. Qed.
 Print Assumptions C19_zst_cond.
@@ -38,9 +42,9 @@ Print Assumptions C19_zst_cond.
 (** ... and conversely the shared pointer is returned exactly in that case. *)
 Theorem C19_zst_cond_complete :
   (forall anchor size align maxa,
-     size = 0%N -> (align <= maxa)%N -> alloc_zst_model zst_cond anchor size align maxa = Some anchor)
+     size = 0%N -> (align <= maxa)%N -> alloc_zst_model zst_body anchor size align maxa = Some anchor)
   /\ (forall anchor size align maxa,
-     (size <> 0%N \/ (maxa < align)%N) -> alloc_zst_model zst_cond anchor size align maxa = None).
+     (size <> 0%N \/ (maxa < align)%N) -> alloc_zst_model zst_body anchor size align maxa = None).
 Proof. exact (conj zst_complete_generated zst_none_generated). Qed.
 Print Assumptions C19_zst_cond_complete.
 
@@ -60,7 +64,7 @@ Print Assumptions C19_macros_no_caller_code_in_unsafe.
     types. *)
 Theorem C19_unsize_coerces_raw_pointers :
   (forall f, In f pub_fns -> fs_name f = "__coerce_unchecked" -> coerce_fn_ok f = true)
-  /\ map fs_owner (coerce_fns pub_fns) = ["__CoercePtrInternal"; "Gc"; "GcWeak"]
+  /\ same_set (map fs_owner (coerce_fns pub_fns)) ["__CoercePtrInternal"; "Gc"; "GcWeak"] = true
   /\ unsize_macro_ok unsize_macro_rules unsize_macro_matcher unsize_macro_text = true.
 Proof. exact (conj coerce_fns_lifted (conj (proj2 coerce_fns_check) unsize_macro_check)). Qed.
 Print Assumptions C19_unsize_coerces_raw_pointers.
@@ -73,9 +77,18 @@ Example C19_sigs_nonvacuous :
 Proof. exact relevant_present. Qed.
 
 Example C19_zst_cond_nonvacuous :
-  alloc_zst_model zst_cond 4096 0 8 16 = Some 4096%N /\ alloc_zst_model zst_cond 4096 0 32 16 = None
-  /\ alloc_zst_model zst_cond 4096 1 1 16 = None.
+  alloc_zst_model zst_body 4096 0 8 16 = Some 4096%N /\ alloc_zst_model zst_body 4096 0 32 16 = None
+  /\ alloc_zst_model zst_body 4096 1 1 16 = None.
 Proof. vm_compute. repeat split. Qed.
+
+(** The check on the guard discriminates: the reference spelling, the early-return / De Morgan spelling
+    and the nested / flipped spelling are canonical; weakened guards are not. *)
+Example C19_zst_shape_discriminates :
+  map zbody_canonical [zb_reference; zb_early_demorgan; zb_nested_flipped] = [true; true; true]
+  /\ map zbody_canonical [zb_no_size_test; zb_or; zb_swapped_leaves; zb_align_lt; zb_size_le_one;
+                          ZIf (ZUnknownC "x") ZRetSome ZRetNone; ZUnknownB "x"; ZRetSome; ZRetNone]
+     = [false; false; false; false; false; false; false; false; false].
+Proof. exact zbody_canonical_examples. Qed.
 
 (** ** Discrimination (F3): [alloc_zst] is [unsafe] now; the very same signature without [unsafe]
     -- the pre-fix [alloc_zst<T>(&self) -> Option<Gc<'gc, T>>] -- is relevant and FAILS the criterion. *)
